@@ -433,14 +433,19 @@ func (e *c54XEnv) good(x *c54XRound, q *c54XReq, phase string) {
 	}
 	defer conn.Close()
 	conn.SetDeadline(time.Now().Add(60 * time.Second))
+	t0 := time.Now()
 	conn.Write(x.request(q, 0))
 	raw, err := io.ReadAll(conn)
+	took := time.Since(t0)
 	if err != nil || len(raw) == 0 {
 		r.CaseS(key, false)
 		r.Count("x_client_error_skipped", 1)
 		return
 	}
-	w := map[string]interface{}{"xround": x, "request": q, "phase": phase, "client_head": clip(string(raw), 400)}
+	w := map[string]interface{}{"xround": x, "request": q, "phase": phase, "client_head": clip(string(raw), 400), "request_took_ms": took.Milliseconds()}
+	if took > 10*time.Second {
+		r.Count("x_wellbehaved_took_longer_than_10s", 1)
+	}
 	resp, _, rej := http1.ParseResponse(raw, "GET", 1)
 	if rej != nil {
 		r.CaseS(key, false)
